@@ -434,6 +434,23 @@ def apply_fault(sess, a):
             lp = _nested_entry(salt, utils, nests, ex.Variable('ch'))
             return lp.get_value_c(database=sess.dbs[dbi], aggregation=True, prepare_ids=True)
         ok, engine, e = expect_error(sess, f'{kind}', f)
+    elif kind == 'cnl_outside':
+        # cross-nested logit: an alternative that is not in the choice set appears in ONE of three nests (any position)
+        from biogeme.nests import OneNestForCrossNestedLogit, NestsForCrossNestedLogit
+        from biogeme import models
+        position = (salt // 2) % 3
+
+        def f():
+            contents = [{1: ex.Beta('cnl_a11', 0.5, 0, 1, 0), 2: 1.0}, {1: ex.Beta('cnl_a21', 0.5, 0, 1, 0), 3: 1.0}, {3: 1.0}]
+            contents[position][7] = ex.Beta('cnl_foreign', 0.5, 0, 1, 0)
+            nests = tuple(OneNestForCrossNestedLogit(nest_param=ex.Beta(f'cnl_mu_{k_}', 1.5, 1, None, 0), dict_of_alpha=c_,
+                                                     name=f'nest_{k_}') for k_, c_ in enumerate(contents))
+            the_nests = NestsForCrossNestedLogit(choice_set=[1, 2, 3], tuple_of_nests=nests)
+            fb = ref.Builder(eb.beta_specs(), pool=sess.pool, share_elementary=False)
+            utils = {1: fb.build(['beta', 'b0']), 2: fb.build(['*', ['beta', 'b1'], ['var', 'c0']]), 3: fb.build(['num', 0.0])}
+            lp = models.logcnl(utils, None, the_nests, ex.Variable('ch'))
+            return lp.get_value_c(database=sess.dbs[dbi], aggregation=True, prepare_ids=True)
+        ok, engine, e = expect_error(sess, f'cross-nested logit: alternative outside the choice set in nest {position} of 3', f)
     elif kind == 'mc_catalog_switch':
         # ONE formula whose validity depends on the alternative selected in a catalog: with 'fixed' the integrand of the
         # Monte-Carlo operator holds no draws (invalid), with 'normal' it does (valid). Whatever was selected, audited
